@@ -59,10 +59,8 @@ func parseClusterNodes(data string) (map[string]*instance, error) {
 			continue
 		}
 
-		// attach slots to master node
-		if len(fields) < 9 {
-			return nil, errInvalidClusterNodes
-		}
+		// attach slots to master node, a master which serves no slot
+		// (just joined, or completely resharded) has no slot field at all.
 		slots, err := parseClusterNodesSlot(fields[8:])
 		if err != nil {
 			return nil, err
